@@ -254,6 +254,8 @@ def random_case(rng, max_nodes=30, max_depth=4):
             other = 'rtb' if p[0] == 'rta' else 'rta'
             for j in range(2, len(p) + 1):
                 q = (other,) + p[1:j]
+                if q in nodes and j < len(p) and not c10lib.has_dir(nodes[q]):
+                    break                   # something without a directory is already there: nothing can go below it
                 if q not in nodes:
                     src_kind = nodes.get((p[0],) + p[1:j], k)
                     nodes[q] = src_kind if rng.random() < 0.7 else rng.choice(ALL_KINDS if j < len(p) else ['mod', 'pkg', 'both', 'ns'])
